@@ -14,7 +14,7 @@ import (
 	log "github.com/go-spring/log"
 )
 
-var c16ops = []string{"RA", "RB", "RE", "RL1", "RL2", "RL3", "RL4", "D", "LT", "WH", "RT", "GH"}
+var c16ops = []string{"RA", "RB", "RE", "RL1", "RL2", "RL3", "RL4", "RL5", "D", "LT", "WH", "RT", "GH"}
 
 func c16cfgA() map[string]string {
 	return map[string]string{
@@ -67,7 +67,7 @@ func (rn *c16run) exec(ops []string, fresh bool) (string, string) {
 		var st string
 		where := fmt.Sprintf("step %d (%s) in state %s", step, op, live)
 		switch op {
-		case "RA", "RB", "RE", "RL1", "RL2", "RL3", "RL4":
+		case "RA", "RB", "RE", "RL1", "RL2", "RL3", "RL4", "RL5":
 			var cfg map[string]string
 			switch op {
 			case "RA":
@@ -89,6 +89,10 @@ func (rn *c16run) exec(ops []string, fresh bool) (string, string) {
 			case "RL4": // an appender cannot be started (its directory does not exist): fails before any logger is started
 				cfg = c16cfgB()
 				cfg["appender.bad.type"], cfg["appender.bad.fileDir"], cfg["appender.bad.fileName"] = "File", "/nonexistent-c16/dir", "x.log"
+			case "RL5": // a LOGGER that refuses to start (asynchronous, buffer below the minimum) after every appender was started
+				cfg = c16cfgB()
+				cfg["appender.extra.type"] = "VRec"
+				cfg["logger.lz.type"], cfg["logger.lz.tags"], cfg["logger.lz.appenderRef.ref"], cfg["logger.lz.bufferSize"] = "AsyncLogger", "c16never", "extra", "10"
 			}
 			pv, st = catch(func() { err = log.Refresh(cfg) })
 			if pv != nil {
@@ -162,6 +166,23 @@ func (rn *c16run) exec(ops []string, fresh bool) (string, string) {
 				h = rn.h2
 			}
 			var n int
+			if rn.seq%3 == 1 {
+				// a zero-length write first (io.Writer callers do that): it returns (0, nil) and changes nothing for what follows
+				var n0 int
+				var err0 error
+				if pv0, st0 := catch(func() {
+					if rn.seq%2 == 0 {
+						n0, err0 = h.Write(nil)
+					} else {
+						n0, err0 = h.Write([]byte{})
+					}
+				}); pv0 != nil {
+					return fmt.Sprintf("%s: a zero-length write through a named handle panicked: %v\n%s", where, pv0, trunc(st0, 800)), "write-panic:" + live
+				}
+				if live != "limbo" && (n0 != 0 || err0 != nil) {
+					return fmt.Sprintf("%s: zero-length handle Write returned (%d,%v)", where, n0, err0), "write-result"
+				}
+			}
 			if pv, st = catch(func() { n, err = h.Write([]byte("raw " + id + "\n")) }); pv != nil {
 				return fmt.Sprintf("%s: writing through a named handle panicked: %v\n%s", where, pv, trunc(st, 800)), "write-panic:" + live
 			}
@@ -380,7 +401,7 @@ func c16Worker(w *W) {
 func init() {
 	register(&Prop{
 		ID: "C16", Level: "exploration", MinDistinct: 1000, Worker: c16Worker,
-		Rule: "operation sequences over the alphabet {Refresh valid A (sync, level INFO, enableCaller on), Refresh valid B (async, enableCaller off), Refresh invalid-early (rejected before anything is touched), Refresh invalid-late x4 (unknown logger type; property failure after a sync / an async configuration was started and bound; an appender that cannot be started), Destroy, log via tag (level cycling), write via one of two named handles, register tag, obtain handles}: " +
+		Rule: "operation sequences over the alphabet {Refresh valid A (sync, level INFO, enableCaller on), Refresh valid B (async, enableCaller off), Refresh invalid-early (rejected before anything is touched), Refresh invalid-late x5 (unknown logger type; property failure after a sync / an async configuration was started and bound; an appender that cannot be started; an asynchronous logger that refuses to start), Destroy, log via tag (level cycling), write via one of two named handles, register tag, obtain handles}: " +
 			"ALL sequences of length 1..5 (quick) / 1..6 (thorough) chained in-process from the state 'nothing live', sequences of length 5-8 sampled, and every sequence of length <= 2 (quick) / <= 3 (thorough) executed as the very first thing a fresh process does. " +
 			"Model: live in {none, A, B, limbo}; outcomes per statement (second Refresh rejected and live routing + enableCaller undisturbed, Destroy idempotent, registration refused while live/possible otherwise, output on the console when nothing is live, A/B routing incl. async after flush); in limbo only totality is judged. " +
 			"distinct_nontrivial = number of distinct sequences whose every step matched the model (enumerated sequences are distinct by construction; sampled ones are de-duplicated).",
